@@ -674,10 +674,10 @@ def plan_exhaustive(e, rng, dates):
             h.offset(k, a, b)
             h.read(i)
     recs.append(h.rec)
-    # the other ways of making a frame from an orbit, for a few bodies per run (all of them in the thorough tier):
+    # the other ways of making a frame from an orbit, for a few bodies per run (twice as many in the thorough tier):
     # local orbital orientations (QSW / TNW) - the centre must be the body all the same; conversions from the new frame
     # - and Ephem.as_frame with the dates of the history among the nodes, both ways
-    some = targets if len(dates) > 3 else rng.sample(targets, min(4, len(targets)))
+    some = rng.sample(targets, min(8 if len(dates) > 3 else 4, len(targets)))
     h = History(e, rng, dates)
     for n, a in enumerate(some):
         if a not in _EXH_ORI:
@@ -692,7 +692,7 @@ def plan_exhaustive(e, rng, dates):
                 h.offset(k, _EXH_ORI[a], b)
     recs.append(h.rec)
     h = History(e, rng, dates)
-    for a in (targets if len(dates) > 3 else rng.sample(targets, min(3, len(targets)))):
+    for a in rng.sample(targets, min(5 if len(dates) > 3 else 3, len(targets))):
         if h.get(rng.randrange(nd), a) != "ok":
             continue
         if rng.random() < 0.5:
